@@ -97,13 +97,20 @@ func (s bitmap64) And(provider Provider[uint64]) {
 		s.bitmap.And(typedProvider.bitmap)
 
 	case Duplex[uint64]:
+		// Collect first: removing from the bitmap while iterating it invalidates the iterator.
+		var removals []uint64
+
 		s.Each(func(nextValue uint64) bool {
 			if !typedProvider.Contains(nextValue) {
-				s.Remove(nextValue)
+				removals = append(removals, nextValue)
 			}
 
 			return true
 		})
+
+		for _, removal := range removals {
+			s.Remove(removal)
+		}
 	}
 }
 func (s bitmap64) Or(provider Provider[uint64]) {
@@ -135,12 +142,19 @@ func (s bitmap64) AndNot(provider Provider[uint64]) {
 		s.bitmap.AndNot(typedProvider.bitmap)
 
 	case Duplex[uint64]:
+		// Collect first: removing from the bitmap while iterating it invalidates the iterator.
+		var removals []uint64
+
 		s.Each(func(nextValue uint64) bool {
 			if typedProvider.Contains(nextValue) {
-				s.Remove(nextValue)
+				removals = append(removals, nextValue)
 			}
 
 			return true
 		})
+
+		for _, removal := range removals {
+			s.Remove(removal)
+		}
 	}
 }
